@@ -133,7 +133,10 @@ pub fn complete_path(word: &str, for_dir: bool) -> Vec<Completion> {
                     let mut name = str::replace(name.as_str(), "//", "/");
                     // a word starting with an escaped `$` or `|` carries the
                     // backslash tag: it is an unquoted word, not a quoted one
-                    let unquoted = path_sep.is_empty() || path_sep == "\\";
+                    // (likewise the single-quote tag of a word containing an
+                    // escaped `<` or `>`: the word itself starts with no quote)
+                    let unquoted = path_sep.is_empty() || path_sep == "\\"
+                        || !word.trim_start().starts_with(path_sep.as_str());
                     if unquoted && !is_env {
                         name = tools::escape_path(&name);
                     }
